@@ -3,6 +3,7 @@
 package main
 
 import (
+	"encoding/json"
 	"fmt"
 	"math/big"
 	"math/rand"
@@ -35,6 +36,7 @@ func errClass(out string) string {
 		{"is not a valid currency", "add-overflow"}, {"exceeds allowed periodic limit", "periodic-limit"}, {"exceeds allowed global limit", "global-limit"},
 		{"resulted in an error: uint64 addition overflow", "add-overflow"},
 		{"it seems you're broke", "broke"}, {"value not present", "no-client-state"},
+		{"unauthorized access", "not-owner"}, {"cannot validate changes", "invalid-config"},
 	} {
 		if strings.Contains(out, p.sub) {
 			return p.class
@@ -43,13 +45,17 @@ func errClass(out string) string {
 	return "other:" + out
 }
 
-func (x *world) exec(c int, value uint64, now int64, fn string) string {
+func (x *world) exec(c int, value uint64, now int64, fn string, input ...string) string {
 	x.w.Now = common.Timestamp(now)
 	cl := client(c)
 	before, _, _ := x.w.Account(cl.ID)
 	fb, _, _ := x.w.Account(faucetsc.ADDRESS)
 	x.nonce[c]++
-	t := x.w.Txn(cl, faucetsc.ADDRESS, currency.Coin(value), 0, x.nonce[c], transaction.TxnTypeSmartContract, fn, "")
+	in := ""
+	if len(input) > 0 {
+		in = input[0]
+	}
+	t := x.w.Txn(cl, faucetsc.ADDRESS, currency.Coin(value), 0, x.nonce[c], transaction.TxnTypeSmartContract, fn, in)
 	_, err := x.w.Exec(t)
 	if err != nil {
 		x.nonce[c]--
@@ -61,6 +67,12 @@ func (x *world) exec(c int, value uint64, now int64, fn string) string {
 	after, _, _ := x.w.Account(cl.ID)
 	fa, _, _ := x.w.Account(faucetsc.ADDRESS)
 	var moved uint64
+	if fn == "update-settings" {
+		if after != before || fa != fb {
+			return "harness-inconsistent update-settings moved tokens"
+		}
+		return "ok 0"
+	}
 	if fn == "pour" {
 		moved = uint64(after - before)
 		if uint64(fb-fa) != moved {
@@ -159,7 +171,7 @@ func impl(ops []string) []string {
 			w, err := engine.NewWorld(bal, func(sctx *cstate.StateContext) error {
 				gn := &faucetsc.GlobalNode{ID: faucetsc.ADDRESS, FaucetConfig: &faucetsc.FaucetConfig{
 					PourAmount: currency.Coin(u[0]), MaxPourAmount: currency.Coin(u[1]), PeriodicLimit: currency.Coin(u[2]), GlobalLimit: currency.Coin(u[3]),
-					IndividualReset: time.Duration(ir), GlobalReset: time.Duration(gr), OwnerId: "1746b06bb09f55ee01b33b5e2e055d6cc7a900cb57c0a3a5eaabb8a0e7745802",
+					IndividualReset: time.Duration(ir), GlobalReset: time.Duration(gr), OwnerId: client(7).ID, // the faucet owner of this harness
 					Cost: map[string]int{"pour": 100, "refill": 100, "update-settings": 100}}}
 				_, err := sctx.InsertTrieNode(gn.GetKey(), gn)
 				return err
@@ -180,6 +192,26 @@ func impl(ops []string) []string {
 				continue
 			}
 			outs[i] = x.exec(c, v, now, f[0])
+		case f[0] == "settings" && len(f) == 9:
+			c, e0 := strconv.Atoi(f[1])
+			var u [4]uint64
+			good := e0 == nil && c >= 0 && c < nClients
+			for k := 0; k < 4; k++ {
+				v, err := strconv.ParseUint(f[2+k], 10, 64)
+				u[k] = v
+				good = good && err == nil && v < 1e15
+			}
+			ir, e1 := strconv.ParseInt(f[6], 10, 64)
+			gr, e2 := strconv.ParseInt(f[7], 10, 64)
+			now, e3 := strconv.ParseInt(f[8], 10, 64)
+			if !good || e1 != nil || e2 != nil || e3 != nil || ir < 0 || gr < 0 {
+				continue
+			}
+			zcn := func(v uint64) string { return fmt.Sprintf("%d.%010d", v/1e10, v%1e10) }
+			in, _ := json.Marshal(map[string]map[string]string{"fields": {
+				"pour_amount": zcn(u[0]), "max_pour_amount": zcn(u[1]), "periodic_limit": zcn(u[2]), "global_limit": zcn(u[3]),
+				"individual_reset": fmt.Sprintf("%dns", ir), "global_rest": fmt.Sprintf("%dns", gr)}})
+			outs[i] = x.exec(c, 0, now, "update-settings", string(in))
 		case f[0] == "dump" && len(f) == 1:
 			outs[i] = x.dump()
 		}
@@ -276,6 +308,10 @@ func gen(r *rand.Rand, thorough bool, i int) []string {
 		n = 3 + r.Intn(80)
 	}
 	nc := 1 + r.Intn(4)
+	lowerAt := -1
+	if r.Intn(2) == 0 {
+		lowerAt = 2 + r.Intn(n)
+	}
 	for k := 0; k < n; k++ {
 		switch r.Intn(12) {
 		case 0:
@@ -309,6 +345,34 @@ func gen(r *rand.Rand, thorough bool, i int) []string {
 		}
 		if v > 4e18 {
 			v = 4e18
+		}
+		if lowerAt == k && c.valid() && c.global < 1e15 {
+			// the owner lowers the limits in the middle of the windows, typically below what has already gone out
+			// (update-settings keeps Used); further pours by the same and by other clients follow
+			nc2 := c
+			switch r.Intn(4) {
+			case 0:
+				nc2.periodic, nc2.global = c.maxPour, c.maxPour
+			case 1:
+				nc2.periodic = c.maxPour
+			case 2:
+				nc2.global = c.periodic
+			default:
+				nc2.periodic = c.maxPour + uint64(r.Int63n(int64(c.periodic-c.maxPour)+1))
+				nc2.global = nc2.periodic + uint64(r.Int63n(int64(c.global-nc2.periodic)+1))
+			}
+			who := 7
+			if r.Intn(6) == 0 {
+				who = r.Intn(7) // not the owner
+			}
+			if r.Intn(10) == 0 {
+				nc2.periodic = nc2.maxPour - 1 // invalid: refused
+			}
+			ops = append(ops, fmt.Sprintf("settings %d %d %d %d %d %d %d %d", who, nc2.pour, nc2.maxPour, nc2.periodic, nc2.global, nc2.ir, nc2.gr, now), "dump")
+			if who == 7 && nc2.valid() {
+				c = nc2
+			}
+			continue
 		}
 		if r.Intn(9) == 0 {
 			ops = append(ops, fmt.Sprintf("refill %d %d %d", cl, uint64(r.Int63n(int64(c.maxPour%(1<<40)+5))), now))
@@ -365,6 +429,23 @@ func oracle(ops, outs []string) *corr.Violation {
 			faucet = nil
 			if f[7] != "-" {
 				faucet, _ = new(big.Int).SetString(f[7], 10)
+			}
+		case "settings":
+			if strings.HasPrefix(outs[i], "ok") {
+				// the limits in force change; what has gone out in the running windows stays counted. The saved global node can
+				// also open / restart the global window (as a refill does), judged with the reset period in force before the change
+				now, _ := strconv.ParseInt(f[8], 10, 64)
+				d := new(big.Int).Mul(big.NewInt(now-g.start), big.NewInt(1e9))
+				if !g.open || d.Cmp(big.NewInt(c.gr)) >= 0 {
+					g = win{start: now, used: new(big.Int), open: true}
+				}
+				c.pour, _ = strconv.ParseUint(f[2], 10, 64)
+				c.maxPour, _ = strconv.ParseUint(f[3], 10, 64)
+				c.periodic, _ = strconv.ParseUint(f[4], 10, 64)
+				c.global, _ = strconv.ParseUint(f[5], 10, 64)
+				c.ir, _ = strconv.ParseInt(f[6], 10, 64)
+				c.gr, _ = strconv.ParseInt(f[7], 10, 64)
+				ok = c.valid()
 			}
 		case "refill":
 			if strings.HasPrefix(outs[i], "ok ") && ok {
@@ -453,6 +534,10 @@ func main() {
 			{shipped, "pour 0 0 1700000000", "pour 0 5 1700000001", "pour 0 1000000000000 1700000002", "refill 0 7 1700000003", "refill 1 7 1700000003", "dump",
 				fmt.Sprintf("pour 0 0 %d", 1700000000+3*3600), "dump", fmt.Sprintf("pour 0 0 %d", 1700000000+48*3600), "dump"},
 			{"conf 1 3 5 9 1000000000 2000000000 100", "pour 0 2 100", "pour 0 2 100", "pour 0 2 100", "pour 0 2 100", "pour 1 2 100", "pour 1 2 100", "pour 2 2 100", "dump", "pour 0 2 101", "pour 0 2 102", "dump"},
+			// the owner lowers both limits below what client 1 has received; nobody can pour until the windows elapse
+			{shipped, "pour 1 990000000000 1700000000", "pour 1 990000000000 1700000001", "settings 3 10000000000 1000000000000 1000000000000 1000000000000 10800000000000 172800000000000 1700000002",
+				"settings 7 10000000000 1000000000000 1000000000000 1000000000000 10800000000000 172800000000000 1700000002", "dump", "pour 1 5 1700000003", "pour 2 5 1700000003",
+				"settings 7 10000000000 5 1000000000000 1000000000000 10800000000000 172800000000000 1700000004", fmt.Sprintf("pour 1 5 %d", 1700000000+3*3600), fmt.Sprintf("pour 2 5 %d", 1700000000+48*3600), "dump"},
 			{"conf 1 3 5 9 1000000000 2000000000 -", "pour 0 2 100", "refill 0 0 100", "dump", "conf x", "pour 0 0 0", "frob"},
 		},
 		Nontrivial: func(ops, outs []string) bool {
